@@ -362,6 +362,8 @@ class SafeLearner(Learner):
                 pred = list(pred.values())[0]
             elif self._pred_format[:2] == 'PM':
                 pred = list(zip(*pred)) #column-major to one pmf per row
+            elif self._pred_format == 'AX' and self._pred_kwargs:
+                pred = pred[0] #the single column of actions that came before the kwargs
 
             if self._pred_format[:2] == 'PM':
                 A, P = list(map(list, zip(*map(self._rng.choicew,actions, pred))))
